@@ -38,6 +38,7 @@ impl RunRec {
             match &s.out {
                 Out::Ev(e) => put(crate::plan::fnv_bytes(format!("{:?}", e).as_bytes())),
                 Out::Err { dbg, .. } => put(crate::plan::fnv_bytes(dbg.as_bytes())),
+                Out::Raw(b) => put(crate::plan::fnv_bytes(b)),
             }
         }
         for t in &self.trace {
